@@ -16,6 +16,7 @@ import (
 	"encoding/json"
 	"fmt"
 	"math/big"
+	"os"
 	"sort"
 	"strings"
 
@@ -61,6 +62,7 @@ type Config struct {
 	Depth     int
 	Attacks   bool // C02: mutation operations on currently valid relay messages
 	AttackSet string
+	TraceScale uint8   // scale of the traces of bound ERC-20 tokens: each is registered with scale 0 first and re-registered (a governance correction) with this scale before any transfer
 	Scale     *big.Int // raw amount of one unit of an ERC-20 (and of tokens bound to it); nil = 1. 2^64+1 makes every amount exceed 64 bits with non-zero low bits
 	TSS       bool // B's client of A is a TSS client
 	Prop      string
@@ -182,6 +184,9 @@ func New(cfg Config) *Sys {
 						ori = strings.ToLower(s.tok[short[m]+":erc20"].String())
 					}
 					must(c.App.AggregateKeeper.RegisterERC20Trace(ctx, bt, ori, m, 0))
+					if what == "erc20" && s.cfg.TraceScale != 0 {
+						must(c.App.AggregateKeeper.RegisterERC20Trace(ctx, bt, ori, m, s.cfg.TraceScale))
+					}
 					world.KeeperCall(c, ctx, erc20contracts.ERC20MinterBurnerDecimalsContract.ABI, c.Accounts["u1"].Eth, bt, "approve", endpointcontract.EndpointContractAddress, s.rawCfg(1000000))
 					s.tok[short[n]+":bound:"+short[m]+":"+what] = bt
 				}
@@ -193,10 +198,18 @@ func New(cfg Config) *Sys {
 
 // scaleOf: raw amount of one ledger unit of a token (ERC-20 origin tokens and the tokens bound to them are scaled).
 func (s *Sys) scaleOf(tok common.Address) *big.Int {
-	if s.cfg.Scale != nil && tok != (common.Address{}) {
+	if (s.cfg.Scale != nil || s.cfg.TraceScale != 0) && tok != (common.Address{}) {
 		for name, a := range s.tok {
 			if a == tok && strings.HasSuffix(name, ":erc20") {
-				return s.cfg.Scale
+				f := big.NewInt(1)
+				if s.cfg.Scale != nil {
+					f.Set(s.cfg.Scale)
+				}
+				if strings.Contains(name, ":bound:") {
+					// the destination mints 10^scale of the bound token per unit of the origin token
+					f.Mul(f, new(big.Int).Exp(big.NewInt(10), big.NewInt(int64(s.cfg.TraceScale)), nil))
+				}
+				return f
 			}
 		}
 	}
@@ -288,6 +301,9 @@ func (s *Sys) Ops() []string {
 		for _, f := range s.cfg.AckForms {
 			if t.AckBytes == nil && (f == "g1" || f == "g2" || f == "dup2" || f == "old" || f == "altpkt" || f == "altfee") {
 				continue // nothing to relay yet
+			}
+			if f == "tssaddr" && !s.tss(t.Src, t.Dst) {
+				continue
 			}
 			out = append(out, fmt.Sprintf("ack %s %s", t.ID, f))
 		}
@@ -400,6 +416,10 @@ func (s *Sys) sendTx(src, dst *world.Chain, kind string, amount int64) (tx []byt
 		d.FeeOption = 2 // a non-zero fee option travels in the packet and in its acknowledgement and is part of what is committed
 	}
 	d.Amount = s.raw(d.TokenAddress, amount)
+	if base == "back" && s.cfg.TraceScale != 0 {
+		// the endpoint takes the amount of a bound token in units of the origin token and burns amount x 10^scale
+		d.Amount = s.rawCfg(amount)
+	}
 	data := world.CrossChainCallData(d, packettypes.Fee{TokenAddress: feeTok, Amount: s.raw(feeTok, fee)})
 	if base == "native" && fee > 0 {
 		value = new(big.Int).Add(value, big.NewInt(fee))
@@ -598,6 +618,9 @@ func (s *Sys) stepSend(src, dst *world.Chain, kind string, amt, fee int64, tx []
 		if len(d) > 0 {
 			add("C04", "failed-send-changed-state", fmt.Sprintf("send %s on %s failed (%s %s) but changed %v", kind, short[src.Name], r.Log, r.VMError, d))
 		}
+		if os.Getenv("VERIF_DEBUG_RET") != "" {
+			fmt.Printf("RET %q\n", r.Ret)
+		}
 		return fmt.Sprintf("send rejected code=%d vm=%q", r.Code, r.VMError), class
 	}
 	class += " accepted"
@@ -695,6 +718,14 @@ func (s *Sys) observeSends(c *world.Chain, pre, post map[string]map[string]strin
 		if len(p.TransferData) > 0 && td.ABIDecode(p.TransferData) == nil {
 			t.Token = common.HexToAddress(td.Token)
 			t.Amount = s.units(t.Token, new(big.Int).SetBytes(td.Amount))
+			if s.cfg.TraceScale != 0 {
+				// packets carry amounts in units of the origin token
+				q, r := new(big.Int).QuoRem(new(big.Int).SetBytes(td.Amount), s.rawCfg(1), new(big.Int))
+				t.Amount = q.Int64()
+				if r.Sign() != 0 {
+					t.Amount = -7777777
+				}
+			}
 		}
 		s.tr = append(s.tr, t)
 		out = append(out, t)
@@ -874,7 +905,7 @@ func (s *Sys) ackMsg(t *transfer, form string) (sdk.Msg, world.Account, *world.C
 	src := s.w.Chains[t.Src]
 	dst := s.w.Chains[t.Dst]
 	signer := src.Accounts["r1"]
-	if s.tss(src.Name, dst.Name) && form != "conflict" && form != "early" {
+	if s.tss(src.Name, dst.Name) && form != "conflict" && form != "early" && form != "tssaddr" {
 		signer = src.Accounts["u2"] // genuine forms carry the TSS account's signature; forged ones come from an ordinary relayer
 	}
 	var p packettypes.Packet
@@ -887,7 +918,7 @@ func (s *Sys) ackMsg(t *transfer, form string) (sdk.Msg, world.Account, *world.C
 		signer = src.Accounts["r2"]
 	case "old":
 		h = s.oldestProving(src, dst, t.AckAt-1)
-	case "conflict", "early":
+	case "conflict", "early", "tssaddr":
 		// other ack bytes (flipped outcome), with a genuine proof of whatever the counterparty stores under the key
 		a := packettypes.NewAcknowledgement(1, []byte{}, "forged", signer.Acc.String(), 0)
 		if t.AckBytes != nil {
@@ -904,6 +935,10 @@ func (s *Sys) ackMsg(t *transfer, form string) (sdk.Msg, world.Account, *world.C
 		ack, _ = a.ABIPack()
 	}
 	proof, ph := s.proofFor(src, dst, key, h)
+	if form == "tssaddr" {
+		// an ordinary relayer writes the (public) TSS address into the proof field of a conflicting acknowledgement
+		proof = []byte(src.Accounts["u2"].Acc.String())
+	}
 	pkt := t.Bytes
 	if form == "altpkt" {
 		pkt = altered(p) // same triple, different body; genuine acknowledgement and proof
